@@ -29,7 +29,7 @@ structure Params where
   unitInit : String := "%unit_init"
 
 /-- `stmt["operation"].endswith("_decl") or stmt["operation"] in exclude_stmts` -/
-def keepsTop (P : Params) (op : String) : Bool := op.endsWith "_decl" || P.exclude.contains op
+def keepsTop (P : Params) (op : String) : Bool := strEndsWith op "_decl" || P.exclude.contains op
 
 /-- one pass over the rows; returns `(regular_stmts, top_stmts)`. -/
 def split (P : Params) : (moving : Bool) → Rows → Rows × Rows
